@@ -125,3 +125,60 @@ def monC12 (cat : Catalog) (evs : List Ev) (impl : Stats) : String :=
         "!monitor " ++ " ".intercalate ids
 
 end Cuke.Mon
+
+namespace Cuke.Mon
+open Cuke
+
+/-! ## C11: the ordering clauses, evaluated on what the REAL Normalize forwarded -/
+
+structure SeqSt where
+  feat : Option Nat := none
+  rule : Option Nat := none
+  att : Option (ScenKey × Option Retries) := none
+  finished : Bool := false
+  deriving Repr
+
+/-- the strict sequential automaton: one feature open at a time, one rule or top-level attempt inside it,
+    one attempt inside a rule, brackets nested, run-Finished last -/
+def seqStep (s : SeqSt) (e : Ev) : Option SeqSt :=
+  if s.finished then none
+  else match e with
+  | .started => some s
+  | .parsingFinished .. => some s
+  | .parseErr _ => some s
+  | .finished => if s.feat.isNone && s.rule.isNone && s.att.isNone then some { s with finished := true } else none
+  | .featStarted f => if s.feat.isNone then some { s with feat := some f } else none
+  | .featFinished f => if s.feat == some f && s.rule.isNone && s.att.isNone then some { s with feat := none } else none
+  | .ruleStarted f r => if s.feat == some f && s.rule.isNone && s.att.isNone then some { s with rule := some r } else none
+  | .ruleFinished f r => if s.feat == some f && s.rule == some r && s.att.isNone then some { s with rule := none } else none
+  | .scen k ret se =>
+    if s.feat == some k.feat && s.rule == k.rule then
+      match se with
+      | .started => if s.att.isNone then some { s with att := some (k, ret) } else none
+      | .finished => if s.att == some (k, ret) then some { s with att := none } else none
+      | _ => if s.att == some (k, ret) then some s else none
+    else none
+
+def seqOk (evs : List Ev) : Bool := (evs.foldl (fun (s : Option SeqSt) e => s.bind (fun s => seqStep s e)) (some {})).isSome
+
+def attKeys (evs : List Ev) : List (ScenKey × Option Retries) :=
+  (evs.filterMap (fun e => match e with | .scen k ret _ => some (k, ret) | _ => none)).eraseDups
+
+def projAtt (κ : ScenKey × Option Retries) (evs : List Ev) : List Ev :=
+  evs.filter (fun e => match e with | .scen k ret _ => (k, ret) == κ | _ => false)
+
+def countEv (e : Ev) (l : List Ev) : Nat := (l.filter (· == e)).length
+
+/-- `contract` = the harness says the stream is contract-abiding; `saferun` = `C11.SafeRun` of the input -/
+def monC11 (contract saferun : Bool) (evs : List Ev) (outs : List (List Ev)) : String :=
+  let flat := outs.flatten
+  if contract && !saferun then "!monitor NEW contract-abiding stream is not a SafeRun (theorem hypotheses do not cover it)"
+  else if !contract then "ok"
+  else if !(evs.all (fun e => countEv e flat == countEv e evs) && flat.length == evs.length) then "!monitor NEW T1 multiset differs"
+  else if !seqOk flat then "!monitor NEW T2 output not sequential"
+  else if !((attKeys evs).all (fun κ => projAtt κ flat == projAtt κ evs)) then "!monitor NEW T3 attempt order changed"
+  else if !((evs.zip outs).all (fun p => !p.1.isRunLevel || p.2.head? == some p.1)) then "!monitor NEW T4 run-level event delayed"
+  else if seqOk evs && !(outs == evs.map (fun e => [e])) then "!monitor NEW T5 sequential input not passed through event by event"
+  else "ok"
+
+end Cuke.Mon
